@@ -248,6 +248,14 @@ func (x *Exec) formatFloat1(f *Term, verb byte) strVal {
 			out = append(out, tb.bytes['-'])
 		}
 		E := 2 + x.choose(2, "exp-len")
+		// the exponent has three digits exactly when |x| >= 1e100 or |x| < 1e-99 (a true fact about the
+		// printed form: at least two exponent digits, no superfluous ones)
+		big := tb.Or(tb.fcmp(OFLe, tb.F64(1e100), abs), tb.fcmp(OFLt, abs, tb.F64(1e-99)))
+		if E == 3 {
+			x.axiom(big)
+		} else {
+			x.axiom(tb.Not(big))
+		}
 		for i := 0; i < E; i++ {
 			lo := byte('0')
 			if i == 0 && E == 3 {
